@@ -329,6 +329,12 @@ func (d *driver) queueNestedFirstCycles() {
 			}
 		}
 	}
+	// cycles through the only entry of a map (the detector follows a map's first entry)
+	d.queueCyclic(Graph{Objs: []Obj{{Kind: "map", Keys: []Val{vInt(1)}, Vals: []Val{vRef("map", 0)}}}, Root: vRef("map", 0)}, "map-first-cycle")
+	d.queueCyclic(Graph{Objs: []Obj{{Kind: "arr", Items: []Val{vRef("map", 1)}}, {Kind: "map", Keys: []Val{vBytes([]byte("k"))}, Vals: []Val{vRef("arr", 0)}}},
+		Root: vRef("arr", 0)}, "map-first-cycle")
+	d.queueCyclic(Graph{Objs: []Obj{{Kind: "struct", Items: []Val{vInt(0), vRef("map", 1)}}, {Kind: "map", Keys: []Val{vBool(true)}, Vals: []Val{vRef("map", 1)}}},
+		Root: vRef("struct", 0)}, "map-first-cycle")
 }
 
 func (d *driver) runPending() {
